@@ -23,7 +23,7 @@ import acc_common as AC
 import accir
 
 PROPERTY = "C01"
-MODEL_TARGETS = ["Model/AccDedup.vo"]
+MODEL_TARGETS = ["Model/AccDedup.vo", "Model/AccWeave.vo"]
 RULE = ("functions in lowering form as for C07 (1-2 accelerators x 1-3 fields, setup+launch+await triples, scf.for / "
         "scf.if nested to depth 3, calls with/without accfg.effects<none>, loop-derived arithmetic), plus if/else "
         "followed by a setup (hoisting), loops alternating between configurations, and the functions of "
@@ -166,7 +166,7 @@ def correspondence(ctx):
         texts.append(AC.HEADER_D + "Definition cases : list (rule * tbl * list val * val * prog * prog) := "
                      + accir._l(AC.step_case(s) for s, _ in sh) + ".\n"
                      "Eval vm_compute in failing (fun c => match c with (r, t, fr, tg, b, a) => step_ok r t fr tg b a end) cases.\n"
-                     "Eval vm_compute in failing (fun c => match c with (r, t, fr, tg, b, a) => match r with RSimplify => simplify_is_map t fr tg b a | _ => true end end) cases.\n")
+                     "Eval vm_compute in failing (fun c => match c with (r, t, fr, tg, b, a) => match r with RSimplify => simplify_cert t fr tg b a | _ => true end end) cases.\n")
     res = vlib.coq_eval_many("c01l1_", texts, timeout=900)
     for sh, (ok, out) in zip(shards, res):
         lists = vlib.parse_all_eval_lists(out)
@@ -178,7 +178,7 @@ def correspondence(ctx):
             dis.append({"name": f"L1:{s[0]}", "target": s[1], "text": text, "coq_case": AC.step_case(s)[:1500]})
         for idx in lists[1]:
             s, text = sh[idx]
-            dis.append({"name": "L1:simplify-is-not-the-proved-map", "target": s[1], "text": text})
+            dis.append({"name": "L1:simplify-rewrite-fails-simplify_cert(hypotheses of C01_simplify_rule_partial)", "target": s[1], "text": text})
     return dis
 
 
